@@ -345,9 +345,15 @@ func vGenHistory(t *testing.T, ctx context.Context, w *vWorld, id int) *vHistory
 					pos = all[:q]
 				}
 				ok = dr.opInbound(w.signedVAA(k, curSet, curMembers, pos), "valid")
-			case 2: // under quorum
+			case 2: // under quorum; every other time the last signature record names a guardian index the set does not have
 				if q >= 2 {
-					ok = dr.opInbound(w.signedVAA(k, curSet, curMembers, all[:q-1]), "under-quorum")
+					b := w.signedVAA(k, curSet, curMembers, all[:q-1])
+					note := "under-quorum"
+					if n := len(curSet.Keys); len(b) > 6+66*(q-2) && n < 255 && r.chance(1, 2) {
+						b[6+66*(q-2)] = byte(n + r.below(256-n))
+						note = "under-quorum-index-outside-the-set"
+					}
+					ok = dr.opInbound(b, note)
 				}
 			case 3: // signed by the other set
 				other, om := gs0, members
